@@ -148,7 +148,7 @@ def run_body_factory(name, N, G, nparams, ncosts, seed, fail_script=None, allow_
         try:
             problem, alg, exc = run_algorithm(name, ctx, seed, N, G, n_params=nparams, n_costs=ncosts, f=fbig,
                                               bounds=[[0.0, 1.0], [-2.0, 2.0], [0.5, 1.5], [-1.0, 0.0]][:nparams], before=before, after=after,
-                                              shim_cfg={"extreme_values": False}, g=g)
+                                              shim_cfg={"extreme_values": False, "max_draws": max(5000, 300 * N * (G + 1))}, g=g)
         finally:
             TournamentSelector.pop_acceptance = orig_acc
         desc = "%s N=%d G=%d params=%d objectives=%d seed=%d fail_script=%r constraint=%r" % (
